@@ -248,6 +248,52 @@ def run(rep, tier):
     sinner = prog.fn(H + "::search_inner")
     rep.ob("R12.3", "bounded-retry|search_inner", bool(sinner.calls_named(r"HnswIndex::search_attempt$")) and _bounded_retry(sinner),
            "the NotFound retry loop is bounded by SEARCH_MAX_ATTEMPTS", sinner.file + ":%d" % sinner.line)
+    # ------------------------------------------------------------------ R12.4 what the audit found
+    rep.rule("R12.4", "writer and loader agree on the cached edge distance (the loader refuses a non-finite one, so every conversion of a computed distance "
+             "into the cached bf16 is followed by a finiteness test); both neighbour-selection strategies drop candidates that are no longer nodes", floor=4)
+    hn_fns = [f for f in prog.fns.values() if f.crate == "anda_db_hnsw" and f.file.endswith("/hnsw.rs")]
+    loader_checks = any(re.search(r"bf16::is_finite$", e.name or "") for f in hn_fns if prog.outer_fn(f).path.endswith("validate_loaded_node")
+                        for g in [f] + list(prog.closures_of(f)) for e in g.events)
+    if not loader_checks:
+        raise CheckerFault("anchor missing: validate_loaded_node testing edge distances with bf16::is_finite")
+    nconv = 0
+    for f in hn_fns:
+        for e in f.calls():
+            if not (e.name or "").endswith("bf16::from_f32") or not e.args:
+                continue
+            pl = core.op_place(e.args[0])
+            # a *computed distance*: an f32 that is not a component of the caller's vector (those conversions are fn-item maps)
+            if pl is None or f.locals[pl.l].strip() != "f32":
+                continue
+            nconv += 1
+            guarded = any(re.search(r"bf16::is_finite$", q.name or "") and (f.dominates(e.block, q.block)) and any(
+                o[0] == "call" and o[1] is e for a in q.args for o in f.slice_back_op(a)) for q in f.calls())
+            rep.ob("R12.4", "edge-distance-finite-on-write|%s|line-group-%d" % (prog.outer_fn(f).path.rsplit("::", 1)[1], nconv), guarded,
+                   "a computed distance is cached on an edge as bf16::from_f32(dist) with no finiteness test, while validate_loaded_node refuses a node whose "
+                   "cached edge distance is not finite: with vectors around 1e19 the f32 kernels overflow, flush succeeds and load_all then rejects its own "
+                   "output (`Loaded node 1 contains non-finite edge distance`) - through Hnsw::bootstrap the collection cannot be opened", e.where())
+    if nconv < 3:
+        raise CheckerFault("anchor missing: conversions of a computed distance into a cached bf16 (found %d, counted 3)" % nconv)
+    sn = [f for f in hn_fns if f.path.endswith("HnswIndex::select_neighbors")]
+    if not sn:
+        raise CheckerFault("anchor missing: HnswIndex::select_neighbors")
+    g = sn[0]
+    rep.saw(g, len(g.events))
+    from .c16 import arm_regions
+    regs = arm_regions(g, "anda_db_hnsw::hnsw::SelectNeighborsStrategy")
+    if len(regs) < 2:
+        raise CheckerFault("anchor missing: the strategy match of select_neighbors (%s)" % sorted(regs))
+    shared = set.intersection(*[set(b) for b in regs.values()]) if regs else set()
+    for v, bl in sorted(regs.items()):
+        own = set(bl) - shared
+        live = any(re.search(r"contains_key$|HashMapRef.*::get$|::contains$", e.name or "") and (e.block in own or e.call_block in own) for e in g.calls()) or any(
+            any(re.search(r"contains_key$|HashMapRef.*::get$", q.name or "") for q in k.calls())
+            for c in g.creates() if c.block in own for k in [prog.fns.get(c.cid)] if k is not None)
+        rep.ob("R12.4", "strategy-drops-removed-candidates|%s" % v, live,
+               "the %s branch of select_neighbors selects among the candidates without asking whether they are still nodes (its sibling does): under heavy "
+               "deletion 57-66%% of the edge slots hold ids of removed nodes and recall falls below the documented floors on 7-9 of 24 seeds" % v,
+               g.file + ":%d" % g.line)
+
     return rep.finish(EXPLAIN)
 
 
